@@ -14,7 +14,8 @@ var UniqueDirectivesPerLocationRule = Rule{
 			seen := map[string]bool{}
 
 			for _, dir := range directives {
-				if dir.Name != "repeatable" && seen[dir.Name] {
+				repeatable := dir.Definition != nil && dir.Definition.IsRepeatable
+				if !repeatable && seen[dir.Name] {
 					addError(
 						Message(`The directive "@%s" can only be used once at this location.`, dir.Name),
 						At(dir.Position),
